@@ -170,9 +170,15 @@ func genSegCase(rng *fw.Rng) *SegCase {
 		deepest = 3 + rng.Intn(13)
 	}
 	req := gs.Request([]int{deepest})
+	// the levels compared: a random non-empty subset of the six deepest ones (gaps between requested levels included)
 	var ids []int
-	for z := max(0, deepest-2); z <= deepest; z++ {
-		ids = append(ids, z)
+	for z := max(0, deepest-5); z <= deepest; z++ {
+		if rng.Chance(1, 2) {
+			ids = append(ids, z)
+		}
+	}
+	if len(ids) == 0 {
+		ids = []int{deepest - rng.Intn(min(deepest, 2)+1)}
 	}
 	pix := req.ResD
 	q := pix / 4
